@@ -68,15 +68,28 @@ func (h HostsList) AsList(sep string) []string {
 }
 
 func (h HostsList) MarshalYAML() (interface{}, error) {
-	list := h.AsList("=")
-	sort.Strings(list)
-	return list, nil
+	return h.sortedList(), nil
 }
 
 func (h HostsList) MarshalJSON() ([]byte, error) {
-	list := h.AsList("=")
-	sort.Strings(list)
-	return json.Marshal(list)
+	return json.Marshal(h.sortedList())
+}
+
+// sortedList renders the hosts in a deterministic order and keeps the addresses of one host in the order they
+// were given (sorting whole `host=ip` lines would reorder them, so that the rendering reloads to another list)
+func (h HostsList) sortedList() []string {
+	hosts := make([]string, 0, len(h))
+	for k := range h {
+		hosts = append(hosts, k)
+	}
+	sort.Slice(hosts, func(i, j int) bool { return hosts[i]+"=" < hosts[j]+"=" })
+	list := make([]string, 0, len(h))
+	for _, k := range hosts {
+		for _, ip := range h[k] {
+			list = append(list, fmt.Sprintf("%s=%s", k, ip))
+		}
+	}
+	return list
 }
 
 var hostListSerapators = []string{"=", ":"}
